@@ -559,6 +559,8 @@ def install(prefix="pyairtouch"):
                 _set(mod, name, ConstStr(val))
             elif name == "INSTANCE" and type(val).__module__.startswith(prefix):
                 wrap_int_dicts(val, prefix)
+    from . import procstate
+    procstate.snapshot(prefix)
 
 
 def uninstall():
@@ -573,6 +575,8 @@ def uninstall():
             except AttributeError:
                 pass
     unpatch_enum()
+    from . import procstate
+    procstate.snapshot()
 
 
 # ----------------------------------------------------------------------------- dicts looked up with symbolic keys
